@@ -249,6 +249,7 @@ type world struct {
 	lastStage string
 	sanity    map[string]cert
 	midRound  bool
+	edge      bool
 	primes    []tcase // honest non-committing certificates shown to every fresh node before the cases
 	quick     bool
 }
